@@ -475,6 +475,11 @@ func (t *TransportLayerCC) Unmarshal(rawPacket []byte) error { //nolint:gocognit
 	t.ReferenceTime = get24BitsFromBytes(rawPacket[headerLength+referenceTimeOffset : headerLength+referenceTimeOffset+3])
 	t.FbPktCount = rawPacket[headerLength+fbPktCountOffset]
 
+	// chunks and deltas left over from an earlier Unmarshal into the same value
+	// are not part of this packet
+	t.PacketChunks = nil
+	t.RecvDeltas = nil
+
 	packetStatusPos := uint16(headerLength + packetChunkOffset)
 	var processedPacketNum uint16
 	for processedPacketNum < t.PacketStatusCount {
